@@ -65,16 +65,43 @@ func c08Shadow(c *Ctx) {
 		}
 		return hit
 	}
+	// mentionsUnder: t mentions the field, or is rooted at a local that the
+	// path state equates with a term mentioning it (wildcard := desc.WildcardUser)
+	mentionsUnder := func(st *State, t *Term, f *types.Var) bool {
+		if mentions(t, f) {
+			return true
+		}
+		if t == nil || st == nil {
+			return false
+		}
+		vars := map[types.Object]bool{}
+		t.walk(func(x *Term) {
+			if x.K == 'v' && x.Obj != nil {
+				vars[x.Obj] = true
+			}
+		})
+		for _, fa := range st.Facts() {
+			if fa.Op != "eq" || !fa.Pos || fa.B == nil {
+				continue
+			}
+			for _, pr := range [][2]*Term{{fa.A, fa.B}, {fa.B, fa.A}} {
+				if pr[0].K == 'v' && vars[pr[0].Obj] && mentions(pr[1], f) {
+					return true
+				}
+			}
+		}
+		return false
+	}
 	type matchSite struct {
 		call     *ast.CallExpr
 		wildcard bool
 	}
-	classify := func(call *ast.CallExpr) (matchSite, bool) {
+	classify := func(st *State, call *ast.CallExpr) (matchSite, bool) {
 		if !fnIs(calleeOf(&CallSite{Call: call, In: fs}), "group", "Password", "Match") {
 			return matchSite{}, false
 		}
 		rt := ff.term(recvExpr(call))
-		return matchSite{call, mentions(rt, fWild)}, true
+		return matchSite{call, mentionsUnder(st, rt, fWild)}, true
 	}
 	// the lookup desc.Users[name]
 	var lookupFound types.Object
@@ -106,7 +133,7 @@ func c08Shadow(c *Ctx) {
 		found := st.HasFact(mkFact(true, "true", TVar(lookupFound), nil))
 		var lastMatch *matchSite
 		for _, call := range trace {
-			if ms, ok := classify(call); ok {
+			if ms, ok := classify(st, call); ok {
 				m := ms
 				lastMatch = &m
 				if found && ms.wildcard {
@@ -132,7 +159,7 @@ func c08Shadow(c *Ctx) {
 			// the permissions returned are those of the matched entry
 			if okSucc {
 				rt := ff.term(ret.Results[0])
-				if lastMatch.wildcard != mentions(rt, fWild) {
+				if lastMatch.wildcard != mentionsUnder(st, rt, fWild) {
 					okSucc = false
 				}
 			}
@@ -403,7 +430,28 @@ func c08Derived(c *Ctx) {
 		if !ok {
 			return true
 		}
+		if call, isCall := unparen(as.Rhs[0]).(*ast.CallExpr); isCall && len(call.Args) == 2 {
+			// flag := slices.Contains(<the role's list>, "x")
+			if f := calleeOf(&CallSite{Call: call, In: fs}); f != nil && f.Pkg() != nil && f.Pkg().Path() == "slices" && f.Name() == "Contains" {
+				o := info.ObjectOf(id)
+				if v, isC := constString(info, call.Args[1]); isC && as.Tok == token.DEFINE {
+					if _, seen := flagOf[o]; !seen {
+						if _, isId := unparen(call.Args[0]).(*ast.Ident); isId {
+							flagOf[o] = v
+							return true
+						}
+					}
+				}
+				flagOf[o] = "?"
+			}
+			return true
+		}
 		if tv := info.Types[as.Rhs[0]]; tv.Value == nil || tv.Value.String() != "true" {
+			if o := info.ObjectOf(id); flagOf[o] != "" {
+				if tv.Value == nil || tv.Value.String() != "false" {
+					flagOf[o] = "?" // a flag that is also assigned something else
+				}
+			}
 			return true
 		}
 		cases := p.enclosingCase(fs, as, "p")
